@@ -294,7 +294,7 @@ func main() {
 		args := append([]string{"child", j.Mode}, j.Args...)
 		env := []string{"VERIF_STATS=" + sf, "VERIF_JOURNAL=" + jf, "VERIF_TMP=" + wd, "VERIF_VARIANT=" + j.Variant,
 			fmt.Sprintf("GOMAXPROCS=%d", j.Procs), "GORACE=halt_on_error=0 exitcode=66", "GOTRACEBACK=single"}
-		res := vlib.RunChild(bin(j.Variant), args, env, nil, 30*time.Minute)
+		res := vlib.RunChild(bin(j.Variant), args, env, nil, time.Duration(run.N(8, 60))*time.Minute)
 		os.RemoveAll(wd)
 		desc := map[string]interface{}{"job": j}
 		journalTail := func() string {
